@@ -241,7 +241,7 @@ CO_ERR COLssLoad(uint32_t *baudrate, uint8_t *nodeId) {
   if (!g_sim) return CO_ERR_NONE;
   push(EV_LSSLOAD, 0, 0);
   if (g_sim->lss_load_result != CO_ERR_NONE) return g_sim->lss_load_result;
-  if (g_sim->lss_have) { *baudrate = g_sim->lss_baud; *nodeId = g_sim->lss_node; }
+  if (g_sim->lss_have) { if (g_sim->lss_baud) *baudrate = g_sim->lss_baud; if (g_sim->lss_node) *nodeId = g_sim->lss_node; }   // values that were never configured (0) keep the defaults
   return CO_ERR_NONE;
 }
 CO_ERR COLssStore(uint32_t baudrate, uint8_t nodeId) {
